@@ -10,12 +10,20 @@
 //!   <nloc> <loc>*            local symbol directories searched before the cache: - (no file) | F<hex>
 //!   <env>                    n | c (cache root below a regular file) | t (tmp below a regular file)
 //!                            | m (tmp directory missing) | w<bytes> (RLIMIT_FSIZE during the download)
+//!                            | d (<cache>/<debug_file> is a regular file) | i (<cache>/<debug_file>/<id> is a regular file)
+//!                            | x (the cache root does not exist yet: create_dir_all has to make every level)
 //!   <drop>                   - | n: additionally run the lookup dropped after n polls
 //!   <tmo>                    client timeout in ms
 //!   <ns> <server>*           server = status;framing;cut;race;body
 //!        framing  L[o1,o2..] Content-Length, flushed in pieces at the offsets
 //!                 K[o1,o2..] chunked transfer encoding, chunk boundaries at the offsets
 //!                 E          close-delimited (no length; EOF ends the body)
+//!                 T[o1,o2..] chunked with chunk extensions (`;v=1`) and a trailer section after the last chunk
+//!                 S[o1,o2..] Content-Length, slow: the response HEAD is sent in pieces too and the server sleeps 1 ms
+//!                            between all pieces
+//!                 M<decl>[,o1,o2..] Content-Length header says <decl> whatever the body's length is (all body bytes
+//!                            are sent): decl < len = the client takes the first decl bytes for the complete body;
+//!                            decl > len = the connection ends before the announced length
 //!        cut      - | h (close without a response) | c<k> (FIN after k body bytes) | r<k> (RST after k bytes) | s<k> (stall after k bytes)
 //!        race     - | R<hex>: on receiving the request the server writes this file at the cache path
 //!                 (another process finishing first)
@@ -26,6 +34,10 @@
 //!                 the request for the last location gets the scripted response.  `PORTSELF` in a location is
 //!                 replaced by this server's port (absolute URLs).  Follow-up requests are logged with a '>' in
 //!                 front of their target.
+//! In-process concurrency (round 5, second pass): first token kS<n>: ONE `Symbolizer` over the HttpSymbolSupplier (wrapped in a
+//!   recording supplier), n concurrent `fill_symbol` calls for the same module in one `join_all`.  The blocks are as usual
+//!   (r= is the result of the supplier call) plus `k=<number of supplier calls>:<classes of the n fill results>`.
+//!   A location of a redirect chain that ends in `LOOP` redirects to itself for ever (the client gives up).
 //! Shared-cache histories (round 4): first token kM:
 //!   kM <df> <id> <cf> <ci> <pre> <tmo> <nc> <server script>*nc <schedule>
 //!   nc clients (one HttpSymbolSupplier each, client i talks to server i only) share ONE cache directory and ONE
@@ -88,6 +100,9 @@ enum Framing {
 #[derive(Clone)]
 struct Script {
     status: u32,
+    trailers: bool,
+    slow: bool,
+    decl: Option<usize>,
     framing: Framing,
     cut: Cut,
     race: Option<Vec<u8>>,
@@ -107,12 +122,21 @@ fn offs(s: &str) -> Vec<usize> {
 fn parse_script(s: &str) -> Script {
     let p: Vec<&str> = s.split(';').collect();
     assert!(p.len() == 5 || p.len() == 6, "server script");
+    let mut decl = None;
     let framing = match &p[1][..1] {
-        "L" => Framing::Len(offs(&p[1][1..])),
-        "K" => Framing::Chunked(offs(&p[1][1..])),
+        "L" | "S" => Framing::Len(offs(&p[1][1..])),
+        "K" | "T" => Framing::Chunked(offs(&p[1][1..])),
         "E" => Framing::Eof,
+        "M" => {
+            let mut o = offs(&p[1][1..]);
+            assert!(!o.is_empty(), "M framing needs the declared length");
+            decl = Some(o.remove(0));
+            Framing::Len(o)
+        }
         _ => panic!("framing"),
     };
+    let trailers = &p[1][..1] == "T";
+    let slow = &p[1][..1] == "S";
     let cut = match p[2] {
         "-" => Cut::None,
         "h" => Cut::NoHead,
@@ -138,7 +162,7 @@ fn parse_script(s: &str) -> Script {
         None
     };
     assert!(p.len() == 5 || redirect.is_some() || dl_redirect.is_some(), "6th field");
-    Script { status: p[0].parse().expect("status"), framing, cut, race, body: unhex(p[4]), redirect, dl_redirect }
+    Script { status: p[0].parse().expect("status"), trailers, slow, decl, framing, cut, race, body: unhex(p[4]), redirect, dl_redirect }
 }
 
 struct Shared {
@@ -173,7 +197,7 @@ fn reason(status: u32) -> &'static str {
     }
 }
 
-async fn send_pieces(sock: &mut TcpStream, data: &[u8], cuts: &[usize]) -> std::io::Result<()> {
+async fn send_pieces(sock: &mut TcpStream, data: &[u8], cuts: &[usize], slow: bool) -> std::io::Result<()> {
     let mut at = 0usize;
     for &c in cuts.iter().chain(std::iter::once(&data.len())) {
         let c = c.min(data.len());
@@ -183,6 +207,9 @@ async fn send_pieces(sock: &mut TcpStream, data: &[u8], cuts: &[usize]) -> std::
             at = c;
             tokio::task::yield_now().await;
             tokio::task::yield_now().await;
+            if slow {
+                tokio::time::sleep(Duration::from_millis(1)).await;
+            }
         }
     }
     Ok(())
@@ -242,6 +269,12 @@ async fn serve_conn(mut sock: TcpStream, idx: usize, script: Script, sh: Arc<Sha
         return Ok(());
     }
     if let Some((code, _)) = &script.dl_redirect {
+        if target.ends_with("LOOP") {
+            let resp = format!("HTTP/1.1 {} Redirect\r\nLocation: {}\r\nContent-Length: 0\r\nConnection: close\r\n\r\n", code, target);
+            sock.write_all(resp.as_bytes()).await?;
+            sock.shutdown().await?;
+            return Ok(());
+        }
         if hop < locs.len() {
             let resp = format!("HTTP/1.1 {} Redirect\r\nLocation: {}\r\nContent-Length: 0\r\nConnection: close\r\n\r\n", code, locs[hop]);
             sock.write_all(resp.as_bytes()).await?;
@@ -279,7 +312,7 @@ async fn serve_conn(mut sock: TcpStream, idx: usize, script: Script, sh: Arc<Sha
     let headline = format!("HTTP/1.1 {} {}\r\nContent-Type: text/plain\r\nConnection: close\r\n", script.status, reason(script.status));
     match &script.framing {
         Framing::Len(o) => {
-            wire.extend_from_slice(format!("{}Content-Length: {}\r\n\r\n", headline, body.len()).as_bytes());
+            wire.extend_from_slice(format!("{}Content-Length: {}\r\n\r\n", headline, script.decl.unwrap_or(body.len())).as_bytes());
             let h = wire.len();
             cuts.push(h);
             for &x in o {
@@ -295,7 +328,7 @@ async fn serve_conn(mut sock: TcpStream, idx: usize, script: Script, sh: Arc<Sha
             wire.extend_from_slice(&body[..limit]);
         }
         Framing::Chunked(o) => {
-            wire.extend_from_slice(format!("{}Transfer-Encoding: chunked\r\n\r\n", headline).as_bytes());
+            wire.extend_from_slice(format!("{}{}Transfer-Encoding: chunked\r\n\r\n", headline, if script.trailers { "Trailer: X-Sum, X-Note\r\n" } else { "" }).as_bytes());
             cuts.push(wire.len());
             let head_len = wire.len();
             let mut bounds: Vec<usize> = o.iter().cloned().filter(|&x| x > 0 && x < body.len()).collect();
@@ -308,7 +341,11 @@ async fn serve_conn(mut sock: TcpStream, idx: usize, script: Script, sh: Arc<Sha
                 if b <= at {
                     continue;
                 }
-                wire.extend_from_slice(format!("{:x}\r\n", b - at).as_bytes());
+                if script.trailers && (cuts.len() % 2 == 1) {
+                    wire.extend_from_slice(format!("{:x};v=1;name=\"a b\"\r\n", b - at).as_bytes());
+                } else {
+                    wire.extend_from_slice(format!("{:x}\r\n", b - at).as_bytes());
+                }
                 for j in at..b {
                     wire.push(body[j]);
                     if j + 1 == limit {
@@ -319,7 +356,11 @@ async fn serve_conn(mut sock: TcpStream, idx: usize, script: Script, sh: Arc<Sha
                 cuts.push(wire.len());
                 at = b;
             }
-            wire.extend_from_slice(b"0\r\n\r\n");
+            if script.trailers {
+                wire.extend_from_slice(b"0;last\r\nX-Sum: 0123456789abcdef\r\nX-Note: INFO URL http://trailer.example/x\r\n\r\n");
+            } else {
+                wire.extend_from_slice(b"0\r\n\r\n");
+            }
             if after != 0 {
                 wire.truncate(cut_pos);
             }
@@ -347,11 +388,18 @@ async fn serve_conn(mut sock: TcpStream, idx: usize, script: Script, sh: Arc<Sha
             wait_stage(g, idx, 3).await;
         }
         let rest: Vec<usize> = cuts.iter().filter(|&&c| c > at).map(|&c| c - at).collect();
-        let r = send_pieces(&mut sock, &wire[at..], &rest).await;
+        let r = send_pieces(&mut sock, &wire[at..], &rest, false).await;
         g.sent[idx].store(3, Ordering::SeqCst);
         r?;
     } else {
-        send_pieces(&mut sock, &wire, &cuts).await?;
+        if script.slow {
+            // the head dribbles in as well: inside the status line, inside a header name, before the blank line
+            let h = cuts[0];
+            let mut c2: Vec<usize> = vec![7, 19, h.saturating_sub(2)].into_iter().filter(|&x| x > 0 && x < h).collect();
+            c2.extend_from_slice(&cuts);
+            cuts = c2;
+        }
+        send_pieces(&mut sock, &wire, &cuts, script.slow).await?;
     }
     match after {
         0 | 1 => {
@@ -578,7 +626,46 @@ async fn do_lookup(s: &HttpSymbolSupplier, m: &SimpleModule, kind: Option<FileKi
     }
 }
 
+/// The HttpSymbolSupplier behind a `Symbolizer`: every call of locate_symbols is counted and its result recorded.
+struct Recording {
+    inner: HttpSymbolSupplier,
+    ports: Vec<u16>,
+    calls: Arc<AtomicUsize>,
+    last: Arc<Mutex<Option<String>>>,
+}
+#[async_trait::async_trait]
+impl SymbolSupplier for Recording {
+    async fn locate_symbols(&self, module: &(dyn breakpad_symbols::Module + Sync)) -> Result<breakpad_symbols::LocateSymbolsResult, SymbolError> {
+        self.calls.fetch_add(1, Ordering::SeqCst);
+        let r = self.inner.locate_symbols(module).await;
+        *self.last.lock().unwrap() = Some(result_text(&r, &self.ports));
+        r
+    }
+    async fn locate_file(&self, module: &(dyn breakpad_symbols::Module + Sync), file_kind: FileKind) -> Result<PathBuf, breakpad_symbols::FileError> {
+        self.inner.locate_file(module, file_kind).await
+    }
+}
+
+/// n concurrent lookups of the same module on ONE Symbolizer (its per-module slot decides who calls the supplier).
+async fn do_concurrent(s: HttpSymbolSupplier, m: &SimpleModule, n: usize, ports: &[u16]) -> String {
+    let calls = Arc::new(AtomicUsize::new(0));
+    let last = Arc::new(Mutex::new(None));
+    let sym = breakpad_symbols::Symbolizer::new(Recording { inner: s, ports: ports.to_vec(), calls: calls.clone(), last: last.clone() });
+    let sym = &sym;
+    let futs = (0..n).map(|i| async move {
+        let mut f = breakpad_symbols::SimpleFrame::with_instruction(0x1000 + i as u64);
+        match sym.fill_symbol(m, &mut f).await {
+            Ok(()) => "k",
+            Err(_) => "e",
+        }
+    });
+    let rs: Vec<&str> = futures_util::future::join_all(futs).await;
+    let r = last.lock().unwrap().clone().unwrap_or_else(|| "NOCALL".into());
+    format!("{} k={}:{}", r, calls.load(Ordering::SeqCst), rs.concat())
+}
+
 struct Case {
+    conc: usize,
     kind: Option<FileKind>,
     df: Option<String>,
     id: Option<String>,
@@ -595,6 +682,11 @@ struct Case {
 fn parse_case(line: &str) -> Case {
     let mut t = Toks::new(line);
     let mut first = t.str();
+    let mut conc = 0usize;
+    if let Some(n) = first.strip_prefix("kS") {
+        conc = n.parse().expect("kS<n>");
+        first = t.str();
+    }
     let kind = match first {
         "kB" => Some(FileKind::Binary),
         "kD" => Some(FileKind::ExtraDebugInfo),
@@ -621,7 +713,7 @@ fn parse_case(line: &str) -> Case {
     let tmo = t.u64();
     let ns = t.usize();
     let servers = (0..ns).map(|_| parse_script(t.str())).collect();
-    Case { kind, df, id, cf, ci, pre, locs, env, drop, tmo, servers }
+    Case { conc, kind, df, id, cf, ci, pre, locs, env, drop, tmo, servers }
 }
 
 static COUNTER: AtomicUsize = AtomicUsize::new(0);
@@ -669,13 +761,25 @@ fn setup_dirs(c: &Case) -> Dirs {
     let rel = rel_path(c);
     let cache = if c.env == "c" { base.join("blk").join("cache") } else { base.join("cache") };
     let tmp = if c.env == "t" { base.join("blk").join("tmp") } else { base.join("tmp") };
-    if c.env != "c" {
+    if c.env != "c" && c.env != "x" {
         std::fs::create_dir_all(&cache).unwrap();
+    }
+    if c.env == "d" || c.env == "i" {
+        // a regular file where create_cache_file needs a directory
+        let comps: Vec<_> = rel.components().collect();
+        if comps.len() >= 3 {
+            let mut p = cache.join(comps[0]);
+            if c.env == "i" {
+                std::fs::create_dir_all(&p).unwrap();
+                p = p.join(comps[1]);
+            }
+            std::fs::write(&p, b"x").unwrap();
+        }
     }
     if c.env != "t" && c.env != "m" {
         std::fs::create_dir_all(&tmp).unwrap();
     }
-    if c.env != "c" {
+    if c.env != "c" && c.env != "x" && c.env != "d" && c.env != "i" {
         let p = cache.join(&rel);
         if c.pre == "D" {
             std::fs::create_dir_all(&p).unwrap();
@@ -754,7 +858,11 @@ fn scenario(c: &Case, drop_at: Option<usize>) -> (String, String, usize, bool, u
             if wlim.is_some() {
                 set_fsize(wlim);
             }
-            let fut = do_lookup(&supplier, &module, c.kind, &ports, &d.cache);
+            let fut: Pin<Box<dyn Future<Output = String> + '_>> = if c.conc > 0 {
+                Box::pin(do_concurrent(supplier, &module, c.conc, &ports))
+            } else {
+                Box::pin(do_lookup(&supplier, &module, c.kind, &ports, &d.cache))
+            };
             let r = DropAfter { fut: Some(Box::pin(fut)), left: drop_at, polls: polls.clone(), probe: d.tmp.clone(), inflight: inflight.clone() }.await;
             if wlim.is_some() {
                 set_fsize(None);
@@ -804,7 +912,7 @@ fn run_multi(line: &str) -> String {
         .filter(|x| !x.is_empty() && *x != "-")
         .map(|x| (x[..x.len() - 1].parse().expect("client"), x.chars().last().unwrap()))
         .collect();
-    let c = Case { kind: None, df: Some(df), id: Some(id), cf, ci, pre, locs: vec![], env: "n".into(), drop: None, tmo, servers };
+    let c = Case { conc: 0, kind: None, df: Some(df), id: Some(id), cf, ci, pre, locs: vec![], env: "n".into(), drop: None, tmo, servers };
     let d = setup_dirs(&c);
     let rt = tokio::runtime::Builder::new_current_thread().enable_all().build().expect("runtime");
     let out = rt.block_on(async {
